@@ -43,7 +43,17 @@ class AddBounceHooks(QHooks):
         for i, b in enumerate(data):
             sets['G:bouncetext.s[%d]' % (n + i)] = fs(b)
         sets['G:bouncetext.len'] = fs(n + len(data))
+        sets['G:bouncetext.s'] = fs(('&', 'G:bouncetext.s[0]'))
         return [Outcome(ret=fs(1), sets=sets)]
+
+    # byte searches of the C library on the concrete text
+    mem = libtab.SAConc.mem
+    cstring = libtab.SAConc.cstring
+    prim_memchr = libtab.SAConc.prim_memchr
+    prim_memrchr = libtab.SAConc.prim_memrchr
+    prim_strchr = libtab.SAConc.prim_strchr
+    prim_strrchr = libtab.SAConc.prim_strrchr
+    prim_strlen = libtab.SAConc.prim_str_len
 
     def _bytes(self, E, x, args):
         lit = x.args[1].string
@@ -436,7 +446,8 @@ class ControlsHooks(libtab.SAConc, QHooks):
 
     def prim_control_rldef(self, E, x, args):
         from qv.lib import lit_of
-        fnm = lit_of(E, x.args[1])
+        v1 = libtab._one(args[1])
+        fnm = v1[1] if isinstance(v1, tuple) and v1[0] == 'str' else lit_of(E, x.args[1])       # the name as a value (it may come from a table), else as written
         val = self.FILES.get(fnm)
         if val is None:
             return [Outcome(ret=fs(1))]
